@@ -915,11 +915,10 @@ COMBOS = [("tcp", "iour"), ("tcp", "poll"), ("unix", "iour"), ("unix", "poll"), 
 MC_QUICK = [
     ("MC_Socket_stream.cfg", None), ("MC_Socket_vec.cfg", None), ("MC_Socket_stream_ideal.cfg", None),
     ("MC_Socket_stream_strict.cfg", "NoLostBytes"),
-    ("MC_Socket_split.cfg", None),
     ("MC_Socket_dgram.cfg", None), ("MC_Socket_dgram_ideal.cfg", None),
     ("MC_Socket_dgram_strict.cfg", "DgSourceDelivered"),
     ("MC_Socket_listen.cfg", None), ("MC_Socket_listen_ideal.cfg", None),
-    ("MC_Socket_live.cfg", None), ("MC_Socket_listen_live.cfg", None),
+    ("MC_Socket_live.cfg", None),
 ]
 MC_THOROUGH = MC_QUICK + [("MC_Socket_dgram_strict2.cfg", "DgPayloadDelivered"), ("MC_Socket_listen_strict.cfg", "NoLostConnection"),
                           ("MC_Socket_stream_thorough.cfg", None), ("MC_Socket_live_thorough.cfg", None)]
@@ -931,10 +930,7 @@ NOT_IN = {
     "MC_Socket_stream.cfg": {"SendVectored", "ZcSendVectored", "RecvVectored", "RecvMsg", "SplitOwned", "DropHalf", "HandleStep", "ZcUnsupported", "RecvNoBufs"},
     "MC_Socket_stream_ideal.cfg": {"SendVectored", "ZcSendVectored", "RecvVectored", "RecvMsg", "SplitOwned", "DropHalf", "HandleStep", "ZcUnsupported", "RecvNoBufs"},
     "MC_Socket_vec.cfg": {"RecvManaged", "MultiOpen", "MultiNext", "MultiDropClean", "MultiDropDiscards", "MultiResubmit", "KernelPrefetch", "KernelTerminate",
-                          "SplitOwned", "DropHalf", "HandleStep", "ZcUnsupported", "RecvNoBufs"},
-    "MC_Socket_split.cfg": {"SendVectored", "ZcSend", "ZcSendVectored", "ZcNotify", "ZcReturn", "RecvVectored", "RecvManaged", "RecvMsg",
-                            "MultiOpen", "MultiNext", "MultiDropClean", "MultiDropDiscards", "MultiResubmit", "KernelPrefetch", "KernelTerminate", "ZcUnsupported",
-                            "RecvNoBufs"},
+                          "ZcUnsupported", "RecvNoBufs"},
     "MC_Socket_stream_thorough.cfg": {"SplitOwned", "DropHalf", "HandleStep", "ZcUnsupported", "RecvNoBufs"},
 }
 
